@@ -347,7 +347,7 @@ MUX_PREAMBLE = ('From Coq Require Import List ZArith Bool PrimFloat.\nImport Lis
                 'From RxVerif Require Import Base.Corr Mux.Val Mux.Sim Mux.SimExt Mux.Ops Mux.Syntax Mux.MuxCorr.\n')
 
 
-MODEL_TRACE_LIMIT = 450      # longer traces (the scale families) are judged by the oracles only
+MODEL_TRACE_LIMIT = 300      # longer traces (the scale families) are judged by the oracles only
 
 
 def coq_muxcase(ast, trace, obs):
